@@ -43,6 +43,7 @@ func runC03(r *Report) {
 	c03R5(r)
 	c03R6(r)
 	c03R8(r)
+	atomicWrites(r, "R8", objNamed("alloc", "allocated"), 1)
 	c03R9(r)
 	c03R10(r)
 	c03R11(r)
